@@ -39,27 +39,32 @@ Theorem insert_keeps_exact :
     exact1 (ins_six r rid 0 ix) (es ++ [mkEnt rid false r]).
 Proof. exact insert_keeps_exact_l. Qed.
 
-(* DELETE, UPDATE and the residual filter as coded break the property (classes 1, 2, 3) *)
+(* the residual filter (class 3) and CREATE INDEX over tombstones (class 1) as coded break the
+   property: histories as the model -- and the real database -- answer them *)
 Theorem index_refuted :
-  (let h := [TCreate 0; TIns [VInt 1; VInt 5; VInt 1]; TDel (Some (ECmp CEq (ECol 0) (ELit (VInt 1))))] in
-   query_a (run_a h) q15 = [[VInt 1; VInt 5; VInt 1]] /\ query_b (run_b h) q15 = [] /\ q_class (run_a h) q15 = 1) /\
-  (let h := [TCreate 0; TIns [VInt 1; VInt 5; VInt 1];
-             TUpd [(1%nat, VInt 6)] (Some (ECmp CEq (ECol 2) (ELit (VInt 1))))] in
-   query_a (run_a h) q15 = [[VInt 1; VInt 6; VInt 1]] /\ query_b (run_b h) q15 = [] /\ q_class (run_a h) q15 = 2) /\
   (let h := [TCreate 0; TIns [VInt 1; VInt 5; VInt 1]] in
    let q := EAnd q15 (ECmp CGt (ECol 1) (ELit (VInt 7))) in
-   query_a (run_a h) q = [[VInt 1; VInt 5; VInt 1]] /\ query_b (run_b h) q = [] /\ q_class (run_a h) q = 3).
-Proof.
-  split; [exact index_refuted_delete|]. split; [|exact index_refuted_residual].
-  destruct index_refuted_update as [A [B [C _]]]. repeat split; assumption.
-Qed.
+   query_a (run_a h) q = [[VInt 1; VInt 5; VInt 1]] /\ query_b (run_b h) q = [] /\ q_class (run_a h) q = 3) /\
+  (let h := [TIns [VInt 1; VInt 5; VInt 1]; TDel (Some (ECmp CEq (ECol 0) (ELit (VInt 1)))); TCreate 0] in
+   query_a (run_a h) q15 = [[VInt 1; VInt 5; VInt 1]] /\ query_b (run_b h) q15 = [] /\ q_class (run_a h) q15 = 1).
+Proof. split; [exact index_refuted_residual|exact index_refuted_backfill_tomb]. Qed.
 
-(* CREATE INDEX back-fill omits rows with a NULL in another indexed column (class 4) *)
-Theorem index_refuted_backfill_nulls :
-  let h := [TIns [VInt 1; VNull; VInt 2]; TCreate 1] in
-  let q := ECmp CEq (ECol 2) (ELit (VInt 2)) in
-  query_a (run_a h) q = [] /\ query_b (run_b h) q = [[VInt 1; VNull; VInt 2]] /\ q_class (run_a h) q = 4.
-Proof. exact index_refuted_backfill. Qed.
+(* the former witnesses of DELETE (653471d), UPDATE of an indexed column (f7aa3d3) and the CREATE
+   INDEX back-fill of rows with NULLs (772f5ce) on the repaired model: both tables answer alike *)
+Theorem former_classes_repaired :
+  (let h := [TCreate 0; TIns [VInt 1; VInt 5; VInt 1]; TDel (Some (ECmp CEq (ECol 0) (ELit (VInt 1))))] in
+   query_a (run_a h) q15 = [] /\ query_b (run_b h) q15 = [] /\ q_class (run_a h) q15 = 0) /\
+  (let h := [TCreate 0; TIns [VInt 1; VInt 5; VInt 1];
+             TUpd [(1%nat, VInt 6)] (Some (ECmp CEq (ECol 2) (ELit (VInt 1))))] in
+   query_a (run_a h) q15 = [] /\ query_b (run_b h) q15 = [] /\ q_class (run_a h) q15 = 0 /\
+   query_a (run_a h) (ECmp CEq (ECol 1) (ELit (VInt 6))) = [[VInt 1; VInt 6; VInt 1]] /\
+   query_b (run_b h) (ECmp CEq (ECol 1) (ELit (VInt 6))) = [[VInt 1; VInt 6; VInt 1]]) /\
+  (let h := [TIns [VInt 1; VNull; VInt 2]; TCreate 1] in
+   let q := ECmp CEq (ECol 2) (ELit (VInt 2)) in
+   query_a (run_a h) q = [[VInt 1; VNull; VInt 2]] /\ query_b (run_b h) q = [[VInt 1; VNull; VInt 2]] /\ q_class (run_a h) q = 0).
+Proof.
+  split; [exact index_repaired_delete|]. split; [exact (proj1 index_repaired_update)|exact index_repaired_backfill].
+Qed.
 
 (* non-vacuity: a real exact index, a real query *)
 Example c10_witness :
@@ -73,11 +78,11 @@ Check scan_prefix_is_filter : forall p ix, sorted ix -> scan_prefix p ix = filte
 Check eq_prefix_correct : forall v c r, in_s 64 v = true -> in_s 64 c = true -> starts_with (kenc (VInt c)) (kenc (VInt v) ++ r) = (v =? c).
 Check exact_index_point_query : forall ix es c, exact1 ix es -> rows_wf es -> in_s 64 c = true -> forall k, In k (flat_map (fun e => match key_rid (fst e) with Some k => [k] | None => [] end) (scan_prefix (kenc (VInt c)) ix)) <-> exists e, In e es /\ e_id e = k /\ col_val 1 (e_row e) = VInt c.
 Check insert_keeps_exact : forall ix es r rid, exact1 ix es -> rows_wf es -> 0 <= rid < 2 ^ 64 -> (forall e, In e es -> e_id e <> rid) -> (col_val 1 r = VNull \/ exists z, col_val 1 r = VInt z /\ in_s 64 z = true) -> exact1 (ins_six r rid 0 ix) (es ++ [mkEnt rid false r]).
-Check index_refuted : (let h := [TCreate 0; TIns [VInt 1; VInt 5; VInt 1]; TDel (Some (ECmp CEq (ECol 0) (ELit (VInt 1))))] in query_a (run_a h) q15 = [[VInt 1; VInt 5; VInt 1]] /\ query_b (run_b h) q15 = [] /\ q_class (run_a h) q15 = 1) /\ (let h := [TCreate 0; TIns [VInt 1; VInt 5; VInt 1]; TUpd [(1%nat, VInt 6)] (Some (ECmp CEq (ECol 2) (ELit (VInt 1))))] in query_a (run_a h) q15 = [[VInt 1; VInt 6; VInt 1]] /\ query_b (run_b h) q15 = [] /\ q_class (run_a h) q15 = 2) /\ (let h := [TCreate 0; TIns [VInt 1; VInt 5; VInt 1]] in let q := EAnd q15 (ECmp CGt (ECol 1) (ELit (VInt 7))) in query_a (run_a h) q = [[VInt 1; VInt 5; VInt 1]] /\ query_b (run_b h) q = [] /\ q_class (run_a h) q = 3).
-Check index_refuted_backfill_nulls : let h := [TIns [VInt 1; VNull; VInt 2]; TCreate 1] in let q := ECmp CEq (ECol 2) (ELit (VInt 2)) in query_a (run_a h) q = [] /\ query_b (run_b h) q = [[VInt 1; VNull; VInt 2]] /\ q_class (run_a h) q = 4.
+Check index_refuted : (let h := [TCreate 0; TIns [VInt 1; VInt 5; VInt 1]] in let q := EAnd q15 (ECmp CGt (ECol 1) (ELit (VInt 7))) in query_a (run_a h) q = [[VInt 1; VInt 5; VInt 1]] /\ query_b (run_b h) q = [] /\ q_class (run_a h) q = 3) /\ (let h := [TIns [VInt 1; VInt 5; VInt 1]; TDel (Some (ECmp CEq (ECol 0) (ELit (VInt 1)))); TCreate 0] in query_a (run_a h) q15 = [[VInt 1; VInt 5; VInt 1]] /\ query_b (run_b h) q15 = [] /\ q_class (run_a h) q15 = 1).
+Check former_classes_repaired : (let h := [TCreate 0; TIns [VInt 1; VInt 5; VInt 1]; TDel (Some (ECmp CEq (ECol 0) (ELit (VInt 1))))] in query_a (run_a h) q15 = [] /\ query_b (run_b h) q15 = [] /\ q_class (run_a h) q15 = 0) /\ (let h := [TCreate 0; TIns [VInt 1; VInt 5; VInt 1]; TUpd [(1%nat, VInt 6)] (Some (ECmp CEq (ECol 2) (ELit (VInt 1))))] in query_a (run_a h) q15 = [] /\ query_b (run_b h) q15 = [] /\ q_class (run_a h) q15 = 0 /\ query_a (run_a h) (ECmp CEq (ECol 1) (ELit (VInt 6))) = [[VInt 1; VInt 6; VInt 1]] /\ query_b (run_b h) (ECmp CEq (ECol 1) (ELit (VInt 6))) = [[VInt 1; VInt 6; VInt 1]]) /\ (let h := [TIns [VInt 1; VNull; VInt 2]; TCreate 1] in let q := ECmp CEq (ECol 2) (ELit (VInt 2)) in query_a (run_a h) q = [[VInt 1; VNull; VInt 2]] /\ query_b (run_b h) q = [[VInt 1; VNull; VInt 2]] /\ q_class (run_a h) q = 0).
 Print Assumptions scan_prefix_is_filter.
 Print Assumptions eq_prefix_correct.
 Print Assumptions exact_index_point_query.
 Print Assumptions insert_keeps_exact.
 Print Assumptions index_refuted.
-Print Assumptions index_refuted_backfill_nulls.
+Print Assumptions former_classes_repaired.
